@@ -320,3 +320,164 @@ Section P.
     Qed.
   End Agree.
 End P.
+
+(* ================================================================ transports of the authorization request *)
+Lemma npk_idem p : npk (npk p) = npk p.
+Proof. destruct p as [a b]. unfold npk. cbn [fst snd]. now rewrite !norm_idem. Qed.
+
+Lemma norm_fill a b : norm (fill (norm a) (norm b)) = fill (norm a) (norm b).
+Proof. unfold fill. destruct (norm a) eqn:E; [rewrite <- E|]; apply norm_idem. Qed.
+
+(* every assembled pair is already normalised *)
+Lemma assembled_normal d : npk (assembled d) = assembled d.
+Proof.
+  destruct d as [f|o f|o f|[b|o b] f]; cbn [assembled pushed_request]; try apply npk_idem.
+  unfold over, npk. cbn [fst snd]. now rewrite !norm_fill.
+Qed.
+
+Lemma protected_normal d p : protected_of d = Some p -> npk p = p.
+Proof.
+  destruct d as [f|o f|o f|[b|o b] f]; cbn [protected_of pushed_request]; intro H; inversion H; subst; apply npk_idem.
+Qed.
+
+(* the front channel has no say at all about a pushed request or a request object passed by value *)
+Lemma assembled_pushed_front_irrelevant b f f' : assembled (DPushed b f) = assembled (DPushed b f').
+Proof. reflexivity. Qed.
+Lemma assembled_value_front_irrelevant o f f' : assembled (DValue o f) = assembled (DValue o f').
+Proof. reflexivity. Qed.
+
+Lemma assembled_is_protected d p :
+  protected_of d = Some p -> (forall o f, d <> DRef o f) -> assembled d = p.
+Proof.
+  destruct d as [f|o f|o f|b f]; cbn [protected_of assembled]; intros H Hn; inversion H; subst; auto.
+  exfalso. now apply (Hn o f).
+Qed.
+
+(* whatever the transport: a parameter the protected request carries is the assembled one; the front channel
+   can only fill a gap (and only for a request_uri document) *)
+Lemma assembled_challenge_protected d p c :
+  protected_of d = Some p -> fst p = Some c -> fst (assembled d) = Some c.
+Proof.
+  destruct d as [f|o f|o f|b f]; cbn [protected_of assembled]; intros H Hc; inversion H; subst; auto.
+  unfold over, npk in *. cbn [fst snd] in *. now rewrite Hc.
+Qed.
+Lemma assembled_method_protected d p m :
+  protected_of d = Some p -> snd p = Some m -> snd (assembled d) = Some m.
+Proof.
+  destruct d as [f|o f|o f|b f]; cbn [protected_of assembled]; intros H Hc; inversion H; subst; auto.
+  unfold over, npk in *. cbn [fst snd] in *. now rewrite Hc.
+Qed.
+
+(* the only way a front-channel parameter reaches the PKCE hook next to a protected request *)
+Lemma assembled_gap d p :
+  protected_of d = Some p ->
+  (fst p = None -> fst (assembled d) = None \/ exists o f, d = DRef o f /\ fst (assembled d) = fst (front_of d))
+  /\ (snd p = None -> snd (assembled d) = None \/ exists o f, d = DRef o f /\ snd (assembled d) = snd (front_of d)).
+Proof.
+  destruct d as [f|o f|o f|b f]; cbn [protected_of assembled front_of]; intro H; inversion H; subst;
+    split; intro Hn; auto; right; exists o, f; (split; [reflexivity|]);
+    unfold over, npk in *; cbn [fst snd] in *; now rewrite Hn.
+Qed.
+
+Section PT.
+  Variable HB : N -> pystr -> pystr.
+
+  Lemma flow_d_pushed_front_irrelevant cf ce b f f' cv t :
+    flow_d HB cf ce (DPushed b f) cv t = flow_d HB cf ce (DPushed b f') cv t.
+  Proof. reflexivity. Qed.
+  Lemma flow_d_value_front_irrelevant cf ce o f f' cv t :
+    flow_d HB cf ce (DValue o f) cv t = flow_d HB cf ce (DValue o f') cv t.
+  Proof. reflexivity. Qed.
+
+  (* a pushed request / request object is judged exactly like the same parameters sent alone *)
+  Lemma flow_d_is_protected_flow cf ce d p cv t :
+    protected_of d = Some p -> (forall o f, d <> DRef o f) ->
+    flow_d HB cf ce d cv t = flow HB cf ce (fst p) (snd p) cv t.
+  Proof. intros Hp Hn. unfold flow_d. now rewrite (assembled_is_protected _ _ Hp Hn). Qed.
+
+  Lemma norm_fst_assembled d : norm (fst (assembled d)) = fst (assembled d).
+  Proof. rewrite <- (assembled_normal d) at 2. reflexivity. Qed.
+
+  Lemma transport_bound cf ce d p c cv t :
+    protected_of d = Some p -> fst p = Some c -> flow_d HB cf ce d cv t = Tokens ->
+    exists v k, norm cv = Some v
+                /\ assoc (recorded_method (snd (assembled d))) server_cc_methods = Some k
+                /\ tr HB k v = Ok c.
+  Proof.
+    intros Hp Hc Hf. unfold flow_d in Hf.
+    pose proof (assembled_challenge_protected _ _ _ Hp Hc) as Ha.
+    eapply bound; [|exact Hf]. rewrite norm_fst_assembled. exact Ha.
+  Qed.
+
+  Lemma transport_tokens_iff cf ce d p c cv t :
+    protected_of d = Some p -> fst p = Some c ->
+    (flow_d HB cf ce d cv t = Tokens <->
+     recorded_d cf ce d = Ok (Some c, recorded_method (snd (assembled d)))
+     /\ exists v k, norm cv = Some v
+                    /\ assoc (recorded_method (snd (assembled d))) server_cc_methods = Some k
+                    /\ tr HB k v = Ok c).
+  Proof.
+    intros Hp Hc. pose proof (assembled_challenge_protected _ _ _ Hp Hc) as Ha.
+    unfold flow_d, recorded_d. rewrite tokens_iff, norm_fst_assembled, Ha. split.
+    - intros [H1 [H2|(c' & v & k & Hc' & Hv & Hk & Ht)]]; [discriminate|]. inversion Hc'; subst. split; eauto.
+    - intros [H1 (v & k & Hv & Hk & Ht)]. split; [exact H1|]. right. exists c, v, k. auto.
+  Qed.
+
+  (* a verifier that does not transform to the PROTECTED challenge gets nothing, whatever the front channel said *)
+  Lemma transport_wrong_verifier_refused cf ce d p c cv t v :
+    protected_of d = Some p -> fst p = Some c -> norm cv = Some v ->
+    (forall k, assoc (recorded_method (snd (assembled d))) server_cc_methods = Some k -> tr HB k v <> Ok c) ->
+    flow_d HB cf ce d cv t <> Tokens.
+  Proof.
+    intros Hp Hc Hv Hw Hf. destruct (transport_bound _ _ _ _ _ _ _ Hp Hc Hf) as (v' & k & Hv' & Hk & Ht).
+    rewrite Hv in Hv'. inversion Hv'; subst. exact (Hw _ Hk Ht).
+  Qed.
+
+  (* in particular the verifier of a DIFFERENT challenge that travelled on the front channel *)
+  Lemma transport_front_verifier_refused cf ce d p c c' cv t v :
+    protected_of d = Some p -> fst p = Some c -> norm cv = Some v -> c' <> c ->
+    (forall k, assoc (recorded_method (snd (assembled d))) server_cc_methods = Some k -> tr HB k v = Ok c') ->
+    flow_d HB cf ce d cv t <> Tokens.
+  Proof.
+    intros Hp Hc Hv Hne Hf'. eapply transport_wrong_verifier_refused; eauto.
+    intros k Hk Ht. rewrite (Hf' k Hk) in Ht. inversion Ht. contradiction.
+  Qed.
+
+  Lemma transport_missing_verifier_refused cf ce d p c cv t :
+    protected_of d = Some p -> fst p = Some c -> norm cv = None ->
+    flow_d HB cf ce d cv t = AzRefused 2 \/ flow_d HB cf ce d cv t = TkRefused 3.
+  Proof.
+    intros Hp Hc Hv. unfold flow_d. eapply missing_verifier_refused; [|exact Hv].
+    rewrite norm_fst_assembled. eapply assembled_challenge_protected; eauto.
+  Qed.
+
+  (* essential: a challenge on the front channel does not make up for a pushed request / request object without one *)
+  Lemma transport_essential_front_does_not_count cf ce d p cv t :
+    essential_eff (pc_essential cf) ce = true ->
+    protected_of d = Some p -> (forall o f, d <> DRef o f) -> fst p = None ->
+    flow_d HB cf ce d cv t = AzRefused 1.
+  Proof.
+    intros He Hp Hn Hc. rewrite (flow_d_is_protected_flow _ _ _ _ _ _ Hp Hn).
+    apply essential_refuses; [exact He|]. rewrite Hc. reflexivity.
+  Qed.
+
+  (* the complete pair of the protected request, a configured method, the right verifier: accepted, whatever the
+     front channel carries *)
+  Lemma transport_accepts cf ce d p c m k v t :
+    protected_of d = Some p -> p = (Some c, Some m) -> In m (pc_methods cf) ->
+    assoc m server_cc_methods = Some k -> v <> [] -> tr HB k v = Ok c ->
+    flow_d HB cf ce d (Some v) t = Tokens.
+  Proof.
+    intros Hp -> Hin Hk Hv Ht.
+    pose proof (assembled_challenge_protected _ _ _ Hp eq_refl) as Ha.
+    pose proof (assembled_method_protected _ _ _ Hp eq_refl) as Hm.
+    pose proof (protected_normal _ _ Hp) as Hnp. unfold npk in Hnp. cbn [fst snd] in Hnp. apply pair_equal_spec in Hnp as [Hc1 Hm1].
+    assert (Hrm : recorded_method (Some m) = m).
+    { unfold recorded_method. now rewrite Hm1. }
+    unfold flow_d. rewrite Ha, Hm. apply tokens_iff. rewrite Hc1, Hrm. split.
+    - pose proof (authn_leg_accepts cf ce (Some c) (Some m)) as H. rewrite Hc1, Hrm in H. apply H.
+      + discriminate.
+      + intros c' _. exact Hin.
+    - right. exists c, v, k. repeat split; auto. now apply norm_of_nonempty.
+  Qed.
+End PT.
